@@ -49,6 +49,9 @@ func (e *Engine) script(ob *Obligation) string {
 		}
 	}
 	for _, a := range ob.Assumes {
+		if ob.Cover && ob.Kind == "vacuity" && strings.HasSuffix(ob.Name, "exit_reachable") && (strings.Contains(a, "(forall ") || strings.Contains(a, "(exists ")) {
+			continue // exit probes use the quantifier-free part of the path condition only
+		}
 		sb.WriteString("(assert " + a + ")\n")
 	}
 	if ob.Cover {
